@@ -3,6 +3,7 @@
 set -u
 P="$(readlink -f "$1")"; shift
 cd /verif
+exec 9>/tmp/verif-repo.lock; flock 9   # one user of /repo's working tree at a time (seedcheck, refcheck_all, run_mutants)
 if ! git -C /repo diff --quiet; then echo "repo dirty, refusing"; exit 3; fi
 git -C /repo apply "$P" || { echo "patch does not apply"; exit 3; }
 trap 'git -C /repo checkout -- . ; git -C /repo clean -fdq -- src 2>/dev/null' EXIT
